@@ -100,6 +100,7 @@ DEFAULT_PROFILE: dict[str, Any] = {
     "security": True,
     "multi_body_multipart": False,  # C03 finding: multipart next to another media type loses its boundary
     "multi_body_array": False,      # C03 finding: isinstance(body, list[...]) in the multi-body dispatch raises TypeError
+    "component_unions": False,      # top-level union / array component schemas (forward references inside them)
     "multipart_const": False,       # C06 finding: const property inside a multipart body model crashes rendering
 }
 
@@ -282,13 +283,40 @@ def components(draw, prof, min_schemas=1):
     out = []
     for i, nm in enumerate(names):
         r = draw(st.integers(0, 9))
-        if r <= 5 or not prof["enum"]:
+        if prof.get("component_unions") and draw(st.integers(0, 4)) == 0:
+            un = draw(union_ir(profile(**{**prof, "object_inline": True}), names, 0))
+            un.pop("nullable", None)
+            un["_component_union"] = True
+            s = un if draw(st.booleans()) else {"k": "array", "items": un}
+        elif r <= 5 or not prof["enum"]:
             s = draw(object_ir(prof, names, 1, min_props=0))
         elif r <= 7:
             s = draw(enum_ir(prof, allow_null=False))
         else:
             s = draw(object_ir(prof, names, 1, min_props=1))
         out.append([nm, s])
+    # references out of a top-level union/array component go to object/enum components only (self and mutual references
+    # between such components are documented as unsupported)
+    plain = {nm for nm, sc in out if sc["k"] in ("object", "enum")}
+
+    def _fix(sc):
+        if sc.get("k") == "ref" and sc["name"] not in plain:
+            if plain:
+                sc["name"] = sorted(plain)[0]
+            else:
+                sc.clear()
+                sc["k"] = "str"
+        for key in ("items", "addl"):
+            if isinstance(sc.get(key), dict):
+                _fix(sc[key])
+        for m in sc.get("members", []) + sc.get("allOf", []):
+            _fix(m)
+        for pp in sc.get("props", []):
+            _fix(pp[1])
+
+    for nm, sc in out:
+        if sc["k"] in ("union", "array"):
+            _fix(sc)
     # allOf composition between object components (acyclic: only to earlier-declared *position* in a shuffled order)
     if prof["allof"]:
         objs = [i for i, (_, s) in enumerate(out) if s["k"] == "object"]
@@ -430,8 +458,11 @@ def operation(draw, prof, comp_names, obj_names, opword: str, used_paths: set):
     if others and prof.get("same_name_locations", True) and draw(st.integers(0, 3)) == 0:
         src = draw(st.sampled_from(others))
         loc2 = draw(st.sampled_from([l for l in ("query", "header", "cookie") if l != src["in"]]))
+        sch2 = draw(param_schema(prof, loc2, comp_names))
+        if sch2["k"] == "enum" or (sch2["k"] == "array" and sch2["items"]["k"] == "enum"):
+            sch2 = {"k": "str"}  # two inline enums under one name would (audibly) clash on the derived class name
         params.append({"name": src["name"], "in": loc2, "required": draw(st.booleans()),
-                       "schema": draw(param_schema(prof, loc2, comp_names)),
+                       "schema": sch2,
                        "level": draw(st.sampled_from(["op", "path"]))})
     body = None
     if prof["bodies"] and method in ("post", "put", "patch", "delete") and draw(st.booleans()):
